@@ -477,7 +477,7 @@ Definition call_handler (k : hkind) (now : Z) (e : elem) (s : state) : state * e
             let s1 := set_sm_enabled true s in
             let s2 := set_sm_has_previd false (set_sm_has_id true s1) in
             let s3 := set_sm_parked false (set_bound_jid (sm_parked s2) s2) in
-            let s3a := set_sm_sent (match smq s3 with x :: _ => snd x | [] => e_h e end) s3 in
+            let s3a := set_sm_sent (e_h e) s3 in
             let s3b := sm_queue_resend (sm_queue_cleanup (e_h e) s3a) in
             let '(s4, o) := stream_negotiation_success s3b in (s4, o, false)
       | NmFailed =>
@@ -488,7 +488,7 @@ Definition call_handler (k : hkind) (now : Z) (e : elem) (s : state) : state * e
               let s2 := match c with
                         | CFeatureNotImpl => set_sm_dont_request true (set_sm_can_resume false (set_sm_resume false s1))
                         | CItemNotFound =>
-                            if sm_resume s1 then sm_queue_cleanup (if 0 <=? e_h e then ULONG_MAX else 0) s1 else s1
+                            if sm_resume s1 then sm_queue_cleanup (if 0 <=? e_h e then e_h e else 0) s1 else s1
                         | _ => s1
                         end in
               let have := sm_bind_saved s2 in
@@ -498,8 +498,8 @@ Definition call_handler (k : hkind) (now : Z) (e : elem) (s : state) : state * e
               let '(s4, o) := if have then do_bind now true s3
                               else if resuming then ret (xmpp_disconnect now s3)
                               else stream_negotiation_success s3 in
-              (* error tail: name == NULL -> sm_enabled = (bind != NULL) *)
-              (set_sm_enabled have s4, o, false)
+              (* error tail: stream management stays off until _sm_enable() turns it on again *)
+              (set_sm_enabled false s4, o, false)
           end
       | _ => (set_sm_enabled false s, [], false)
       end
